@@ -290,6 +290,7 @@ def leaving(ctx: Ctx):
 
 
 # the activity an arrival hands over to refuses (None, None) for lack of a resource unless this holds; normalised names
+STATIC_MARKERS = ("grant_access_to_membership(", "valid_charger(", "get_charger_instance(", ".mechatronics.get(")
 ARRIVAL_NEEDS = {
     "ReserveBase": ((("int", "SIM.bases.get(SELF.base_id).available_stalls"),), "a free stall at the base"),
     "ChargingStation": ((("bool", "SIM.stations.get(SELF.station_id).has_available_charger(SELF.charger_id)"),
@@ -305,6 +306,8 @@ def arrival_enterable(ctx: Ctx):
     arrives at a full base / station stays in the travelling activity with an empty route, step after step."""
     repo = ctx.repo
     n = 0
+    n_prev = [0]
+    n_static = [0]
     for sc in states.state_classes(repo):
         t = repo.method(sc.cls, "_default_terminal_state")
         if t is None or t.cls is None or t.cls.name != sc.name or not _has_route_field(sc):
@@ -324,6 +327,63 @@ def arrival_enterable(ctx: Ctx):
 
             for v, facts in alts(p.value.elts[1], base_facts):
                 k = (flow.dump(v.func).split(".")[0] if isinstance(v, ast.Call) else None)
+                # the activity handed over to may insist on a particular PREVIOUS activity: it must be this one
+                ksc = next((x for x in states.state_classes(repo) if x.name == k), None)
+                if ksc is not None:
+                    kren = ksc.rename(ksc.enter)
+                    succ = ksc.success("enter")
+                    need_prev = None
+                    if succ:
+                        common = set.intersection(*[{(states.ndump(a, kren), pol) for a, pol in m.path.facts()} for m in succ])
+                        for d_, pol_ in common:
+                            if pol_ is True and ".vehicle_state.vehicle_state_type == VehicleStateType." in d_:
+                                need_prev = d_.rsplit("VehicleStateType.", 1)[1]
+                    own = _own_type(repo, sc)
+                    if need_prev is not None and own is not None:
+                        n_prev[0] += 1
+                        ctx.check(need_prev == own, "D4", "GD.arrival-enterable", f"{sc.name}: arrival hands over to {k}, which accepts a {need_prev} predecessor", t, p.end,
+                                  why_ok="this activity is that predecessor",
+                                  why_bad=f"{k}.enter fails unless the vehicle's previous activity is {need_prev}, but this hand-over comes from {sc.name} ({own}): the arrival transition errors in "
+                                          f"every step and the vehicle stays in {sc.name} with an exhausted route",
+                                  construct=f"{sc.name}._default_terminal_state:{k}-prev-mismatch")
+                # eligibility that cannot change while the vehicle travels (fleet access, plug compatibility, the plug type existing
+                # at the station): what the successor's enter insists on must have been established when THIS activity was entered
+                if ksc is not None and succ:
+                    b = repo.method(ksc.cls, "build")
+                    binding = {}
+                    vn = states.norm(v, ren)
+                    if b is not None and isinstance(vn, ast.Call):
+                        prm = [x for x in b.params if x not in ("cls", "self")]
+                        for pn, a_ in zip(prm, vn.args):
+                            binding[f"SELF.{pn}"] = flow.dump(a_)
+                        for kw_ in vn.keywords:
+                            binding[f"SELF.{kw_.arg}"] = flow.dump(kw_.value)
+                    own_ren = sc.rename(sc.enter)
+                    # only the entries that really start the journey (a delegating enter hands the vehicle to the successor at once)
+                    own_succ = [m for m in sc.success("enter") if m.path.value is not None and flow.calls_in(m.path.value, "apply_new_vehicle_state")]
+                    admitted = set.intersection(*[{(states.ndump(a, own_ren), pol) for a, pol in m.path.facts()} for m in own_succ]) if own_succ else set()
+                    have = admitted | {(flow.dump(a), pol) for a, pol in facts}
+                    def bind(d0):
+                        for f_, val in sorted(binding.items(), key=lambda x: -len(x[0])):
+                            d0 = d0.replace(f_, val)
+                        # an entity looked up by key carries that key as its id
+                        for coll, key in (("vehicles", "SELF.vehicle_id"), ("requests", "SELF.request_id"), ("stations", "SELF.station_id"), ("bases", "SELF.base_id")):
+                            d0 = d0.replace(f"SIM.{coll}.get({key}).id", key)
+                        return d0
+                    bound = {(bind(d0), p0) for d0, p0 in common}
+                    for dd, pol_ in sorted(bound):
+                        if not any(mk in dd for mk in STATIC_MARKERS):
+                            continue
+                        if dd.startswith("$isnone(") and any(x == dd[8:-1] for x, _ in bound):
+                            continue  # implied form of an atom judged on its own
+                        n_static[0] += 1
+                        okk = (dd, pol_) in have or (pol_ is True and (f"$isnone({dd})", False) in have and "valid_charger" not in dd and "grant_access" not in dd)
+                        txt = dd if pol_ else f"not ({dd})"
+                        ctx.check(okk, "D4", "GD.arrival-enterable", f"{sc.name} -> {k}: `{txt[:90]}` is established when {sc.name} is entered", sc.enter, p.end,
+                                  why_ok=f"{sc.name}.enter (or the arrival path) requires it",
+                                  why_bad=f"{k}.enter refuses unless `{txt[:200]}`, which neither {sc.name}.enter nor the arrival path tests: a vehicle sent on its way although it can never be "
+                                          f"admitted arrives, fails the hand-over in every step and stays in {sc.name} with an exhausted route",
+                                  construct=f"{sc.name}->{k}:static-unchecked:{txt[:120]}")
                 if k not in ARRIVAL_NEEDS:
                     continue
                 n += 1
@@ -339,6 +399,19 @@ def arrival_enterable(ctx: Ctx):
                                   f"dropped and the vehicle stays in {sc.name} with an empty route for good",
                           construct=f"{sc.name}._default_terminal_state:{k}-untested")
     ctx.require(n >= 2, f"arrival hand-overs to a resource-bound activity: only {n} found")
+    ctx.require(n_prev[0] >= 2, f"arrival hand-overs to an activity that names its predecessor: only {n_prev[0]} found")
+
+
+def _own_type(repo, sc):
+    f = repo.method(sc.cls, "vehicle_state_type")
+    if f is None:
+        return None
+    for p in flow.paths(f.node):
+        if p.kind == "return" and p.value is not None:
+            d = flow.dump(p.value)
+            if d.startswith("VehicleStateType."):
+                return d.split(".", 1)[1]
+    return None
 
 
 def _has_route_field(sc) -> bool:
